@@ -48,11 +48,20 @@ HPols == << NonePol, Rd(10, N, TRUE),
 Placed(p, pl) == CASE pl = 1 -> <<p, NonePol>>                       \* request level
                    [] pl = 2 -> <<NonePol, p>>                       \* pool / manager constructor
                    [] pl = 3 -> <<p, IF p.kind \in {"false"} \/ p.total = 0 \/ p.redirect \in {F, 0} THEN I(2) ELSE FalsePol>>
+                   [] pl = 4 -> <<NonePol, p>>                       \* constructor, and the request passes retries=None explicitly
 
 \* headers
 E(k, sp, vs) == [kind |-> k, sp |-> sp, vals |-> vs]
 Sps == <<"canon", "lower", "upper", "mixed">>
-Carriers == <<"dict", "hdict", "mdict", "mhdict">>
+\* who carries the entries `hs`: 1,2 the request (dict / HTTPHeaderDict), 3,4 the manager- or pool-level defaults,
+\* 5,6 the request, while the defaults hold other headers of their own (credentials included)
+DH == << E("auth", "canon", <<"d3fault">>), E("xother", "lower", <<"9">>), E("cookie", "upper", <<"dc=0">>) >>
+Car(ca, hs) == CASE ca = 1 -> [carrier |-> "dict",  hdrs |-> hs,   dcarrier |-> "none",  dhdrs |-> <<>>]
+                 [] ca = 2 -> [carrier |-> "hdict", hdrs |-> hs,   dcarrier |-> "none",  dhdrs |-> <<>>]
+                 [] ca = 3 -> [carrier |-> "none",  hdrs |-> <<>>, dcarrier |-> "dict",  dhdrs |-> hs]
+                 [] ca = 4 -> [carrier |-> "none",  hdrs |-> <<>>, dcarrier |-> "hdict", dhdrs |-> hs]
+                 [] ca = 5 -> [carrier |-> "dict",  hdrs |-> hs,   dcarrier |-> "hdict", dhdrs |-> DH]
+                 [] ca = 6 -> [carrier |-> "hdict", hdrs |-> hs,   dcarrier |-> "dict",  dhdrs |-> DH]
 OtherSp(sp) == IF sp = "upper" THEN "lower" ELSE "upper"
 HVariant(v, sp) ==
     CASE v = 1 -> << E("auth", sp, <<"s3cret">>), E("cookie", sp, <<"c=1">>), E("pauth", sp, <<"pp">>),
@@ -61,33 +70,43 @@ HVariant(v, sp) ==
       [] v = 3 -> << E("auth", sp, <<"s3cret">>), E("cookie", OtherSp(sp), <<"c=1">>), E("xother", "canon", <<"1">>) >>
       [] v = 4 -> << E("auth", sp, <<"s3cret">>), E("xother", "canon", <<"1">>), E("auth", OtherSp(sp), <<"t0ken">>),
                      E("xcustom", sp, <<"cu">>) >>
-VariantOK(v, ca) == v # 2 \/ ca \in {"hdict", "mhdict"}        \* a repeated field needs an HTTPHeaderDict
+      \* mappings that hold nothing but removable headers: the strip loop leaves them empty
+      [] v = 5 -> << E("auth", sp, <<"s3cret">>), E("cookie", OtherSp(sp), <<"c=1">>) >>
+      [] v = 6 -> << E("cookie", sp, <<"c=1">>) >>
+      [] v = 7 -> << E("xcustom", sp, <<"cu">>), E("auth", sp, <<"s3cret">>) >>
+NVariants == 7
+VariantOK(v, ca) == v # 2 \/ ca \in {2, 4, 6}        \* a repeated field needs an HTTPHeaderDict
 H0 == << E("auth", "canon", <<"s3cret">>), E("xother", "canon", <<"1">>), E("ctype", "canon", <<"text/plain">>) >>
 
 Clients == <<"pm", "proxy", "pool">>
 MB == << <<"GET", "none">>, <<"POST", "bytes">>, <<"POST", "file">> >>
 Start == U(SA, <<"d", "p0">>)
 
-Cfg(id, cl, pp, flag, mb, ca, hs, st) ==
-    [id |-> id, client |-> cl, reqpol |-> pp[1], clipol |-> pp[2], flag |-> flag, method |-> mb[1], body |-> mb[2],
-     carrier |-> ca, hdrs |-> hs, start |-> st, proxy |-> U(SP, <<>>)]
+Cfg(id, cl, pp, reqnone, flag, mb, ca, hs, st) ==
+    [id |-> id, client |-> cl, reqpol |-> pp[1], clipol |-> pp[2], reqnone |-> reqnone, flag |-> flag, method |-> mb[1],
+     body |-> mb[2], carrier |-> Car(ca, hs).carrier, hdrs |-> Car(ca, hs).hdrs, dcarrier |-> Car(ca, hs).dcarrier,
+     dhdrs |-> Car(ca, hs).dhdrs, start |-> st, proxy |-> U(SP, <<>>)]
 
 InShard(id) == id % ShardK = ShardS
 
 BudgetCfgs ==
-    { Cfg((((c * 32 + p) * 4 + pl) * 2 + f) * 3 + m, Clients[c], Placed(BPols[p], pl), f = 1, MB[m], "dict", H0, Start)
-        : c \in 1..3, p \in 1..Len(BPols), pl \in 1..3, f \in 0..1, m \in 1..2 }
+    { Cfg((((c * 32 + p) * 5 + pl) * 2 + f) * 3 + m, Clients[c], Placed(BPols[p], pl), pl = 4, f = 1, MB[m], 1, H0, Start)
+        : c \in 1..3, p \in 1..Len(BPols), pl \in 1..4, f \in 0..1, m \in 1..2 }
 
-HeaderCfgsOf(sps, cas) ==
-    { Cfg(100000 + (((((t[1] * 8 + t[2]) * 4 + t[3]) * 5 + t[4]) * 5 + t[5]) * 5 + t[6]) * 3 + t[7], Clients[t[1]],
-          Placed(HPols[t[2]], t[3]), TRUE, MB[t[7]], Carriers[t[5]], HVariant(t[6], Sps[t[4]]), Start)
-        : t \in { t \in (1..3) \X (1..Len(HPols)) \X (1..2) \X sps \X cas \X (1..4) \X (1..2) : VariantOK(t[6], Carriers[t[5]]) } }
-HeaderCfgs == HeaderCfgsOf(1..4, 1..4)
-HeaderCfgsSmall == HeaderCfgsOf({1}, {2})           \* the Model ignores spelling and carrier
+HId(t) == 100000 + (((((t[1] * 8 + t[2]) * 5 + t[3]) * 5 + t[4]) * 7 + t[5]) * 8 + t[6]) * 3 + t[7]
+\* (shard and client filters are applied to the index tuples, before the records are built)
+HeaderCfgsOf(pols, sps, cas, vs) ==
+    { Cfg(HId(t), Clients[t[1]], Placed(HPols[t[2]], t[3]), t[3] = 4, TRUE, MB[t[7]], t[5], HVariant(t[6], Sps[t[4]]), Start)
+        : t \in { t \in (1..3) \X pols \X {1, 2, 4} \X sps \X cas \X vs \X (1..2) :
+                     VariantOK(t[6], t[5]) /\ InShard(HId(t)) /\ (ClientFilter = "all" \/ Clients[t[1]] = ClientFilter) } }
+HeaderCfgs == HeaderCfgsOf(1..Len(HPols), 1..4, 1..6, 1..NVariants)
+\* the Model ignores spelling and the container type: one spelling, HTTPHeaderDict carriers with and without defaults
+HeaderCfgsSmall == IF Alpha = "full" THEN HeaderCfgsOf(1..Len(HPols), {1}, {2, 4, 6}, 1..NVariants)
+                   ELSE HeaderCfgsOf({1, 3, 4, 5}, {1}, {2, 6}, {1, 2, 5, 7})
 
 \* other start URLs (letter case, explicit port, https) and the 303 + file body regression (D5)
 ExtraCfgs ==
-    { Cfg(200000 + ((c * 4 + s) * 4 + m) * 4 + p, Clients[c], Placed(<<NonePol, I(2), Rd(10, 1, FALSE), FalsePol>>[p], 1), TRUE, MB[m], "dict", H0,
+    { Cfg(900000 + ((c * 4 + s) * 4 + m) * 4 + p, Clients[c], Placed(<<NonePol, I(2), Rd(10, 1, FALSE), FalsePol>>[p], 1), FALSE, TRUE, MB[m], 1, H0,
           <<U(SAc, <<"d", "p0">>), U(SAp, <<"d", "p0">>), U(SA443, <<"p0">>), U(SAs, <<"d", "p0">>)>>[s])
         : c \in 1..3, s \in 1..4, m \in 1..3, p \in 1..4 }
 ExtraOK(x) == /\ (x.start.scheme = "https" => x.client = "pm")
@@ -137,7 +156,7 @@ PatOK(c, k, pats) ==
       [] c.client = "pm"    -> ~(pat \in {"pxorigin", "bpx", "samepx"}) /\ (c.start.scheme = "https" => pat \in {"pathabs", "rel", "https", "cross"})
       [] c.client = "proxy" -> ~(pat \in {"https", "schemeonly"})
 Sels == Codes \cup {1, 2}
-IsHeaderCfg(c) == c.id >= 100000 /\ c.id < 200000
+IsHeaderCfg(c) == c.id >= 100000 /\ c.id < 900000
 Pick(id, k, sel, len, samplek) == (id * 7 + k * 13 + sel * 5 + len * 3 + Seed) % samplek = 0
 \* a file body is only combined with chains whose first answer is a 303 (later hops are body-less; D3/D4 are C11's)
 FileOK(c, sel) == c.body = "file" => sel = 303
